@@ -101,6 +101,11 @@ def run(c, p):
         return fields_obs(obj[build_sel(c)], names)
     if op == "iter":
         return tuple(fields_obs(e, names) for e in obj)
+    if op == "iter2":
+        # two iterations over one table at a time (zip with itself, a loop inside a loop), then a plain one
+        pairs = tuple((fields_obs(x, names), fields_obs(y, names)) for x, y in zip(obj, obj))
+        nested = sum(1 for _ in obj for _ in obj)
+        return pairs, nested, tuple(fields_obs(e, names) for e in obj)
     if op == "concat":
         others = [C[cname](*mk_fields(c, cname, v)) for v in c["more"]]
         return fields_obs(np.concatenate([obj] + others), names)
@@ -143,6 +148,10 @@ def expected(c, p):
     if op == "iter":
         n = len(fs[names[0]])
         return tuple(tuple(fs[f][i] for f in names) for i in range(n))
+    if op == "iter2":
+        n = len(fs[names[0]])
+        rows = tuple(tuple(fs[f][i] for f in names) for i in range(n))
+        return tuple((r, r) for r in rows), n * n, rows
     if op == "concat":
         parts = [fs] + [dict(zip(names, mk_fields(c, cname, v))) for v in c["more"]]
         return tuple(np.concatenate([pt[f] for pt in parts]) for f in names)
@@ -280,6 +289,7 @@ def jobs(tier, seed):
     for cls in ("One", "Two", "Three"):
         out.append(dict(cls=cls, op="len", n=n))
         out.append(dict(cls=cls, op="iter", n=n))
+        out.append(dict(cls=cls, op="iter2", n=n))
         for sel in ("int", "list", "mask", "array"):
             out.append(dict(cls=cls, op="getitem", sel=sel, n=n, k=2))
         for s in (None, -1, 2):
